@@ -54,6 +54,7 @@ type Engine struct {
 	loadErrs    []string
 	sealedCache map[string]sealedRes
 	flowMemo    map[string]fieldSet
+	factKeys    map[string]bool
 }
 
 var defaultPkgs = []string{
